@@ -4,6 +4,7 @@ import (
 	"fmt"
 	"go/token"
 	"go/types"
+	"strings"
 
 	"golang.org/x/tools/go/ssa"
 )
@@ -394,86 +395,91 @@ func ruleC16Resize(cx *Ctx) {
 	pm := cx.needField(rule, queuePkg, "MPSC", "producerMask")
 	pb := cx.needField(rule, queuePkg, "MPSC", "producerBuffer")
 	jump := cx.needField(rule, queuePkg, "MPSC", "jump")
-	nextOff := cx.need(rule, queuePkg, "", "nextArrayOffset")
-	off := cx.need(rule, queuePkg, "", "modifiedCalcElementOffset")
-	newBuf := cx.need(rule, queuePkg, "", "newBuffer")
-	if fn == nil || pi == nil || pl == nil || pm == nil || pb == nil || jump == nil || nextOff == nil || off == nil || newBuf == nil {
+	if fn == nil || pi == nil || pl == nil || pm == nil || pb == nil || jump == nil {
+		return
+	}
+	// decided on the path summaries of resize (helpers inlined): the sequence of atomic stores of every returning path
+	ps := newPathSum(cx)
+	ps.inlinePkgs = map[string]bool{pkgPath(queuePkg): true}
+	outs := ps.Run(fn, nil)
+	cx.R.AddInt("paths_enumerated", len(outs))
+	if ps.capped {
+		cx.R.Undecided(rule, funcName(fn), "path cap", cx.P.Pos(fn.Pos()), "path enumeration exceeded its bound")
 		return
 	}
 	name := funcName(fn)
-	var elem, link, marker, limit, index, bufStore, maskStore ssa.Instruction
-	var nb ssa.Value
-	allInstrs(fn, func(in ssa.Instruction) {
-		if c, ok := in.(*ssa.Call); ok && isCallTo(c, newBuf) {
-			nb = c
-		}
-	})
-	pIndex := bparam(fn, 3)
-	oldMask := bparam(fn, 1)
-	for _, s := range slotOps(cx, fn, "StorePointer") {
-		switch {
-		case s.base == nb:
-			if _, isP := stripConv(s.val).(*ssa.Parameter); isP {
-				elem = s.in
-			}
-		case stripConv(s.val) == nb:
-			if c, ok := s.idx.(*ssa.Call); ok && isCallTo(c, nextOff) && c.Call.Args[0] == ssa.Value(oldMask) {
-				link = s.in
-			}
-		case sameField(fieldOf(s.val), jump):
-			if c, ok := s.idx.(*ssa.Call); ok && isCallTo(c, off) && c.Call.Args[0] == ssa.Value(pIndex) && c.Call.Args[1] == ssa.Value(oldMask) {
-				marker = s.in
-			}
-		}
-	}
-	allInstrs(fn, func(in ssa.Instruction) {
-		switch {
-		case atomicOp(in, pl, "Store"):
-			limit = in
-		case atomicOp(in, pi, "Store"):
-			if a := callArgs(in); len(a) == 1 && isAddConst(a[0], pIndex, 2) {
-				index = in
-			}
-		case atomicOp(in, pb, "Store"):
-			if a := callArgs(in); len(a) == 1 && a[0] == nb {
-				bufStore = in
-			}
-		case atomicOp(in, pm, "Store"):
-			maskStore = in
-		}
-	})
-	steps := []struct {
-		n  string
-		in ssa.Instruction
-	}{{"element into new buffer", elem}, {"link old->new buffer", link}, {"new producerLimit", limit}, {"producerIndex = p+2", index}, {"jump marker into old slot", marker}}
-	for _, s := range steps {
-		if s.in == nil {
-			cx.R.Violate(rule, name, s.n, cx.P.Pos(fn.Pos()), "resize step not found in the expected shape: "+s.n)
-		}
-	}
-	for i := 0; i+1 < len(steps); i++ {
-		if steps[i].in == nil || steps[i+1].in == nil {
+	a := newAgg(cx, rule, name, cx.P.Pos(fn.Pos()))
+	recv := "param:" + pname(bparam(fn, 0))
+	oldMask := "param:" + pname(bparam(fn, 1))
+	oldBuf := "param:" + pname(bparam(fn, 2))
+	pIndex := "param:" + pname(bparam(fn, 3))
+	elemP := "param:" + pname(bparam(fn, 4))
+	fld := func(f *types.Var) string { return "&" + recv + "." + fname(f) }
+	returning := 0
+	for _, o := range outs {
+		if o.Cut || o.Panic {
 			continue
 		}
-		cx.R.Check(instrDominates(steps[i].in, steps[i+1].in), rule, name, steps[i].n+" ≺ "+steps[i+1].n, cx.P.where(steps[i+1].in), steps[i].n+" happens before "+steps[i+1].n)
+		returning++
+		idx := map[string]int{}
+		nb := ""
+		for i, e := range o.S.trace {
+			if e.Kind != "Atomic" || len(e.Args) < 3 {
+				continue
+			}
+			op, addr, val := e.Args[0], e.Args[1], e.Args[2]
+			inOld := strings.HasPrefix(addr, "&load("+oldBuf+".") // a slot of the old buffer's array
+			switch {
+			case op == "Store" && addr == fld(pb):
+				idx["producerBuffer"], nb = i, val
+			case op == "Store" && addr == fld(pm):
+				idx["producerMask"] = i
+			case op == "Store" && addr == fld(pl):
+				idx["new producerLimit"] = i
+			case op == "Store" && addr == fld(pi):
+				if val == "("+pIndex+"+const(2))" {
+					idx["producerIndex = p+2"] = i
+				}
+			case op == "StorePointer" && val == elemP && !inOld:
+				idx["element into new buffer"] = i
+			case op == "StorePointer" && inOld && nb != "" && val == nb && strings.Contains(addr, oldMask):
+				idx["link old->new buffer"] = i
+			case op == "StorePointer" && inOld && val == "load("+recv+"."+fname(jump)+")" && strings.Contains(addr, pIndex) && strings.Contains(addr, oldMask):
+				idx["jump marker into old slot"] = i
+			}
+		}
+		steps := []string{"element into new buffer", "link old->new buffer", "new producerLimit", "producerIndex = p+2", "jump marker into old slot"}
+		for _, s := range steps {
+			_, ok := idx[s]
+			a.check(s, ok, "resize performs this publication step on every returning path", "step not found", o)
+		}
+		for i := 0; i+1 < len(steps); i++ {
+			x, ok1 := idx[steps[i]]
+			y, ok2 := idx[steps[i+1]]
+			if ok1 && ok2 {
+				a.check(steps[i]+" ≺ "+steps[i+1], x < y, steps[i]+" happens before "+steps[i+1], "order reversed", o)
+			}
+		}
+		if ix, ok := idx["producerIndex = p+2"]; ok {
+			b, okb := idx["producerBuffer"]
+			a.check("producerBuffer ≺ index", okb && b < ix, "producers that see the even index see the new producerBuffer", "missing or late", o)
+			m, okm := idx["producerMask"]
+			a.check("producerMask ≺ index", okm && m < ix, "producers that see the even index see the new producerMask", "missing or late", o)
+		}
 	}
-	if index != nil {
-		cx.R.Check(bufStore != nil && instrDominates(bufStore, index), rule, name, "producerBuffer ≺ index", cx.P.where(index), "producers that see the even index see the new producerBuffer")
-		cx.R.Check(maskStore != nil && instrDominates(maskStore, index), rule, name, "producerMask ≺ index", cx.P.where(index), "producers that see the even index see the new producerMask")
-	}
+	a.check("returning paths analysed", returning > 0, "resize has returning paths (non-vacuity)", "none", nil)
+	a.flush()
 }
 
 func ruleC16Pop(cx *Ctx) {
 	const rule = "C16.pop"
 	cx.R.Rule(rule, 2, "TryPop: nil only when the slot is empty and consumerIndex == producerIndex; a reserved slot is awaited; the slot is cleared before consumerIndex advances by 2; the jump marker leads to the linked buffer; same discipline in newBufferTryPush")
 	fn := cx.need(rule, queuePkg, "MPSC", "TryPop")
-	nbp := cx.need(rule, queuePkg, "MPSC", "newBufferTryPush")
-	gnb := cx.need(rule, queuePkg, "MPSC", "getNextBuffer")
 	ci := cx.needField(rule, queuePkg, "MPSC", "consumerIndex")
 	pi := cx.needField(rule, queuePkg, "MPSC", "producerIndex")
 	cb := cx.needField(rule, queuePkg, "MPSC", "consumerBuffer")
 	jump := cx.needField(rule, queuePkg, "MPSC", "jump")
-	if fn == nil || nbp == nil || gnb == nil || ci == nil || pi == nil || cb == nil || jump == nil {
+	if fn == nil || ci == nil || pi == nil || cb == nil || jump == nil {
 		return
 	}
 	name := funcName(fn)
@@ -554,22 +560,6 @@ func ruleC16Pop(cx *Ctx) {
 		reach := reachableBlocks(fn, cut)
 		cx.R.Check(!reach[adv.Block()] && len(cut) >= 2, rule, name, "await published", cx.P.where(adv), "consumerIndex advances only on a path where the slot was observed non-nil")
 	}
-	// (3) jump marker: the comparison with m.jump leads to getNextBuffer + newBufferTryPush
-	jumpOK := false
-	allInstrs(fn, func(in ssa.Instruction) {
-		if !isCallTo(in, nbp) {
-			return
-		}
-		for _, g := range guardsAt(in.Block()) {
-			if b, ok := g.Cond.(*ssa.BinOp); ok && b.Op == token.EQL && g.Truth && (sameField(fieldOf(b.Y), jump) || sameField(fieldOf(b.X), jump)) {
-				a := callArgs(in)
-				if c, ok := a[0].(*ssa.Call); ok && isCallTo(c, gnb) && a[1] == idxLoad {
-					jumpOK = true
-				}
-			}
-		}
-	})
-	cx.R.Check(jumpOK, rule, name, "follow jump", cx.P.Pos(fn.Pos()), "a slot holding the jump marker is followed into the linked buffer at the same index")
 	if clear != nil {
 		notJump := false
 		for _, g := range guardsAt(clear.Block()) {
@@ -579,45 +569,88 @@ func ruleC16Pop(cx *Ctx) {
 		}
 		cx.R.Check(notJump, rule, name, "marker not consumed", cx.P.where(clear), "the jump marker is never handed out as an element")
 	}
-	// (4) newBufferTryPush: clear ≺ advance(index+2); consumerBuffer switched before
-	{
-		n2 := funcName(nbp)
-		var clr, ad ssa.Instruction
-		for _, s := range slotOps(cx, nbp, "StorePointer") {
-			if isNilConst(s.val) {
-				clr = s.in
+	// (3)-(5) the jump path, on the path summaries of TryPop with its helpers inlined (they may be one function or several):
+	// a slot holding the marker leads to the buffer linked at nextArrayOffset(mask) of the exhausted buffer; the link is
+	// cleared; the consumer switches to that buffer; the element at the same index is loaded there, cleared before
+	// consumerIndex advances by 2, and returned
+	ps := newPathSum(cx)
+	ps.inlinePkgs = map[string]bool{pkgPath(queuePkg): true}
+	ps.alsoRelevant = []string{"." + fname(jump) + ")"}
+	ps.trackLoads = true
+	outs := ps.Run(fn, nil)
+	cx.R.AddInt("paths_enumerated", len(outs))
+	if ps.capped {
+		cx.R.Undecided(rule, name, "path cap", cx.P.Pos(fn.Pos()), "path enumeration exceeded its bound")
+		return
+	}
+	a := newAgg(cx, rule, name, cx.P.Pos(fn.Pos()))
+	recv := "param:" + pname(bparam(fn, 0))
+	jumpT := "load(" + recv + "." + fname(jump) + ")"
+	jumpPaths := 0
+	for _, o := range outs {
+		if o.Cut || o.Panic {
+			continue
+		}
+		// is this a path on which a loaded slot equalled the marker?
+		marker := ""
+		for atom, v := range o.S.preds {
+			if v && strings.HasPrefix(atom, "PtrEq(") && strings.Contains(atom, jumpT) {
+				marker = atom
+			}
+			if v && strings.HasPrefix(atom, "Eq(") && strings.Contains(atom, jumpT) {
+				marker = atom
 			}
 		}
-		allInstrs(nbp, func(in ssa.Instruction) {
-			if atomicOp(in, ci, "Store") {
-				if a := callArgs(in); len(a) == 1 && isAddConst(a[0], nbp.Params[2], 2) {
-					ad = in
+		if marker == "" {
+			continue
+		}
+		jumpPaths++
+		var cIndex string
+		for _, e := range o.S.trace {
+			if e.Kind == "AtomicLoad" && len(e.Args) > 0 && e.Args[0] == "&"+recv+"."+fname(ci) && cIndex == "" {
+				cIndex = e.Res
+			}
+		}
+		// events after the marker was seen: link load, link clear, buffer switch, element load, clear, advance
+		var linkRes, linkAddr, swVal, elemRes, elemAddr string
+		iLinkClr, iSwitch, iElemLd, iElemClr, iAdv := -1, -1, -1, -1, -1
+		for i, e := range o.S.trace {
+			if e.Kind != "Atomic" {
+				continue
+			}
+			switch e.Args[0] {
+			case "LoadPointer":
+				if strings.Contains(e.Args[1], "+const(2))") && linkRes == "" {
+					linkRes, linkAddr = e.Res, e.Args[1]
+				} else if linkRes != "" && strings.Contains(e.Args[1], linkRes) {
+					elemRes, elemAddr, iElemLd = e.Res, e.Args[1], i
+				}
+			case "StorePointer":
+				if len(e.Args) == 3 && e.Args[2] == "nil" {
+					if e.Args[1] == linkAddr && linkAddr != "" {
+						iLinkClr = i
+					}
+					if e.Args[1] == elemAddr && elemAddr != "" {
+						iElemClr = i
+					}
+				}
+			case "Store":
+				if e.Args[1] == "&"+recv+"."+fname(cb) {
+					iSwitch, swVal = i, e.Args[2]
+				}
+				if e.Args[1] == "&"+recv+"."+fname(ci) && cIndex != "" && e.Args[2] == "("+cIndex+"+const(2))" {
+					iAdv = i
 				}
 			}
-		})
-		cx.R.Check(clr != nil && ad != nil && instrDominates(clr, ad), rule, n2, "clear ≺ advance", cx.P.Pos(nbp.Pos()), "in the linked buffer the slot is cleared before consumerIndex advances by 2")
-		nbo := cx.P.Func(queuePkg, "MPSC", "newBufferAndOffset")
-		sw := false
-		if nbo != nil {
-			allInstrs(nbo, func(in ssa.Instruction) {
-				if atomicOp(in, cb, "Store") {
-					sw = true
-				}
-			})
 		}
-		cx.R.Check(sw, rule, n2, "switch buffer", cx.P.Pos(nbp.Pos()), "the consumer switches consumerBuffer to the linked buffer")
+		a.check("follow jump", linkRes != "" && iSwitch >= 0 && swVal == linkRes, "a slot holding the jump marker is followed into the buffer linked at nextArrayOffset(mask); the consumer switches consumerBuffer to it", fmt.Sprintf("link=%q switch to %q", linkRes, swVal), o)
+		a.check("link cleared", iLinkClr >= 0, "the link slot of the exhausted buffer is cleared", "no clear of the link slot", o)
+		a.check("same index in the linked buffer", iElemLd >= 0 && cIndex != "" && strings.Contains(elemAddr, cIndex), "the element is read from the linked buffer at the consumer index that hit the marker", "element address "+elemAddr, o)
+		a.check("linked buffer: clear ≺ advance", iElemClr >= 0 && iAdv >= 0 && iElemLd < iElemClr && iElemClr < iAdv, "in the linked buffer the slot is cleared before consumerIndex advances by 2", fmt.Sprintf("load %d clear %d advance %d", iElemLd, iElemClr, iAdv), o)
+		a.check("returns the element", len(o.Rets) == 1 && o.Rets[0] == elemRes && elemRes != "", "the element loaded from the linked buffer is returned", fmt.Sprint(o.Rets), o)
 	}
-	// (5) getNextBuffer reads the link at nextArrayOffset(mask)
-	{
-		nextOff := cx.P.Func(queuePkg, "", "nextArrayOffset")
-		ok := false
-		for _, l := range slotOps(cx, gnb, "LoadPointer") {
-			if c, isC := l.idx.(*ssa.Call); isC && nextOff != nil && isCallTo(c, nextOff) {
-				ok = true
-			}
-		}
-		cx.R.Check(ok, rule, funcName(gnb), "link slot", cx.P.Pos(gnb.Pos()), "the linked buffer is read from the same slot resize writes it to (nextArrayOffset(mask))")
-	}
+	a.check("jump paths analysed", jumpPaths > 0, "returning paths through the jump marker exist (non-vacuity)", "none", nil)
+	a.flush()
 }
 
 func reachableBlocks(fn *ssa.Function, cut map[edge]bool) map[*ssa.BasicBlock]bool {
